@@ -113,7 +113,7 @@ def build(cfg, values=None):
 def configs(tier, seed):
     out = []
     quick = tier == 'quick'
-    pairs = [(2, 2), (3, 1), (1, 3)] if quick else [(1, 1), (2, 2), (3, 2), (2, 3), (3, 3), (4, 4), (6, 5)]
+    pairs = [(2, 2), (3, 1), (1, 3), (4, 1), (1, 5)] if quick else [(1, 1), (2, 2), (3, 2), (2, 3), (3, 3), (4, 4), (6, 5)]
     for model in MODELS:
         for (m, n) in pairs:
             if model == 'kpanel' and m * n > (4 if quick else 9):
